@@ -6,6 +6,7 @@ CONSTANTS
   Kinds = {"if"}
   GenVars = {"x"}
   SimpleKinds = {"assign", "use", "defg", "defn", "callg"}
-INVARIANT InvC09Strict
+
 INVARIANT EmitDone
 CHECK_DEADLOCK FALSE
+INVARIANT InvC09
